@@ -9,6 +9,8 @@ From Verif Require Import Base.Out Model.Shell Proofs.ShellProofs.
    in the header, see harness/PYMINI.md) *)
 From Verif Require Base.PyValue Model.PyMini Model.PrimsApi Model.PrimsShell Gen.SrcShell Proofs.SrcShell Proofs.SrcShellSet.
 From Verif Require Gen.Settings.
+(* group `shell2` (bld-misc): BQLShell.on_Select and the render adapters behind FORMATS, see the end of this file *)
+From Verif Require Model.PrimsShell2 Gen.SrcShell2 Proofs.SrcShell2.
 Open Scope list_scope.
 Open Scope Z_scope.
 
@@ -379,3 +381,71 @@ Example C19_source_do_set_example :
   call_method (fun _ _ => PNone) pr shell_do_set (sflds init_state []) [PS (s2z "nosuch")]
     = Ok (sflds init_state [PTuple [PS (s2z "error"); PS (s2z "variable ""nosuch"" does not exist")]], PNone).
 Proof. split; vm_compute; reflexivity. Qed.
+
+(* ---- Group `shell2` (Gen/SrcShell2.v, regenerated on every run): what a SELECT / JOURNAL / BALANCES statement prints.
+   BQLShell.on_Select and the two `render` functions the LIVE dict FORMATS holds for 'text' and 'csv' are PyMini terms
+   (rules S1-S4 of harness/vf/src_shell2.py: `with self.output as out`, the keyword call render(.., dcontext=.., **todict()),
+   FORMATS.get, keyword-only / ** parameters).  For EVERY settings store with a bool `numberify` and a str `format`, every
+   statement and display context, the translated on_Select is [sel_exec] (execute, description, fetchall: an exception
+   propagates), then - exactly when numberify is on, ALSO for an empty result - numberify_results(desc, rows,
+   dcontext.build()) [sel_numberify], then [sel_render]: the line-by-line image of this model's render_format (the
+   function on_statement prints with): format text -> "(empty)" for an empty result, else render_text(desc, rows, dcontext,
+   out, **ALL settings); format csv -> render_csv(desc, rows, dcontext, out, **ALL settings); another format ->
+   NotImplementedError; the shell object is unchanged.  What render_text / render_csv do with the settings is C16's tie.
+   numberify without the display context (seeded C19-m10), numberify skipped for an empty result (C19-m5) are other
+   terms; a csv adapter that forwards only some settings (C19-m2) is outside rule S4 or another term: the obligation
+   no longer checks.
+   NOT proved (left for a later pass): the statement of this theorem through a World instance built from the oracles,
+   i.e. `outcome = on_statement (world_of call_ref msg) st s`; and BQLShell.do_run (src_shell2.spec_do_run_named). *)
+Import Verif.Model.PrimsShell2 Verif.Gen.SrcShell2 Verif.Proofs.SrcShell2.
+
+Theorem C19_source_on_select : forall (call_ref : nat -> list pv -> pv) (msg : string -> list pv -> pv)
+    (dctx outp s : pv) (st : state),
+  sel_wf st -> oracles_ok call_ref msg ->
+  call_method call_ref (prim_shell2 call_ref msg render_text_adapter render_csv_adapter) shell_on_select
+    (sel_flds (enc_ctx dctx) st outp) [s] =
+  PyMini.bind (sel_exec msg (enc_ctx dctx) s) (fun dr =>
+  PyMini.bind (if get_bool st "numberify" then sel_numberify call_ref msg dctx dr else Ok dr) (fun dr' =>
+  PyMini.bind (sel_render call_ref st (fst dr') (snd dr') dctx (msg "with:enter"%string [outp])) (fun v =>
+  Ok (sel_flds (enc_ctx dctx) st outp, v)))).
+Proof. exact on_select_src. Qed.
+Print Assumptions C19_source_on_select.
+
+(* the numbers sel_numberify / sel_render call are those the generated refs table gives to numberify_results,
+   print(.., file=..), render_text(.., **kw) and render_csv(.., **kw) *)
+Theorem C19_source_on_select_refs :
+  ref_of Gen.SrcShell2.refs "beanquery.numberify.numberify_results" = Some Proofs.SrcShell2.kNum /\
+  ref_of Gen.SrcShell2.refs "builtins.print:file" = Some kPrint /\
+  ref_of Gen.SrcShell2.refs "beanquery.query_render.render_text:**" = Some kRT /\
+  ref_of Gen.SrcShell2.refs "beanquery.query_render.render_csv:**" = Some kRC.
+Proof. exact refs_ok. Qed.
+Print Assumptions C19_source_on_select_refs.
+
+(* OBLIGATION on generated data: the keys of the live FORMATS dict are the model's formats *)
+Theorem C19_source_formats_keys : map s2z formats_keys = formats.
+Proof. exact formats_keys_ok. Qed.
+Print Assumptions C19_source_formats_keys.
+
+(* Non-vacuity: format csv, numberify on; an executor whose cursor is object 5, two rows; numberify_results answers
+   with a new description and new rows; render_csv echoes its arguments: it receives the numberified result, the
+   display context, the entered output and every setting. *)
+Example C19_source_on_select_example :
+  let st := Shell.update (Shell.update init_state (s2z "format") (SStr (s2z "csv"))) (s2z "numberify") (SBool true) in
+  let msg := fun (name : string) (args : list pv) =>
+    if String.eqb name "call:execute" then PRef 5
+    else if String.eqb name "attr:description" then PStr "desc"
+    else if String.eqb name "call:fetchall" then PList [PInt 1; PInt 2]
+    else if String.eqb name "call:build" then PStr "dformat"
+    else if String.eqb name "with:enter" then PStr "out" else PNone in
+  let call_ref := fun (k : nat) (args : list pv) =>
+    match k, args with
+    | 0%nat, [d; r; f] => PTuple [PTuple [d; f]; PList [PInt 10; PInt 20]]
+    | 3%nat, _ => PTuple args
+    | _, _ => PNone
+    end in
+  sel_wf st /\
+  call_method call_ref (prim_shell2 call_ref msg render_text_adapter render_csv_adapter) shell_on_select
+    (sel_flds (enc_ctx (PStr "dcontext")) st (PStr "output")) [PStr "SELECT"]
+  = Ok (sel_flds (enc_ctx (PStr "dcontext")) st (PStr "output"),
+        PTuple [PTuple [PStr "desc"; PStr "dformat"]; PList [PInt 10; PInt 20]; PStr "dcontext"; PStr "out"; todict st]).
+Proof. split; [split; eexists; reflexivity|]. vm_compute. reflexivity. Qed.
